@@ -888,8 +888,13 @@ func c07Trial(tdir, base string, lits map[string][]byte, op *c07Op, point string
 
 	c3, err := c07Start(tdir, "")
 	if err != nil {
-		res.obsErr = "the server does not start any more: " + err.Error()
-		return res, nil
+		// a process that exits while starting is a verdict; one that is merely slow to report is not
+		if strings.Contains(err.Error(), "exited during start") {
+			res.obsErr = "the server does not start any more: " + err.Error()
+			return res, nil
+		}
+
+		return nil, err
 	}
 
 	obs, err := c07Observe(c3, filepath.Join(tdir, "server"), lits)
